@@ -26,7 +26,13 @@ MAPS = {
     "adjacent": [(0x00, 0x10), (0x10, 0x10), (0x20, 0x20)],
     "gapped": [(0x00, 0x08), (0x20, 0x10), (0x38, 0x08)],
     "hole": [(0x10, 0x10), (0x00, 0x08), (0x30, 0x10)],
+    # sizes that are not powers of two: the decoder selects on the size rounded UP to a power of two (documented, logged by SoCRegion)
+    "nonpow2": [(0x00, 0x0c), (0x20, 0x18), (0x10, 0x06)],
 }
+
+
+def pow2ceil(n):
+    return 1 << (n - 1).bit_length()
 
 
 def any_(l):
@@ -61,7 +67,7 @@ class WBEnv(Mon):
             if p2p:
                 return 1
             o, sz = amap[i]
-            return (a >= o) & (a < o + sz)
+            return (a >= o) & (a < o + pow2ceil(sz))
         self.match = match
         self.free = []
         for m in ms:
@@ -115,7 +121,24 @@ class WBEnv(Mon):
                 n = n + (match(j, m.adr) & m.cyc & m.stb & ((m.ack & s.ack) | (m.err & s.err)))
             bad_lost = bad_lost | ((s.ack | s.err) & (n != 1))
         self.bad_lost_expr = bad_lost
+        # --- O0: a mapped request reaches its slave: when one master has been requesting alone (nobody else has cyc) for 3 cycles without
+        # termination, the slave whose window holds the address sees cyc & stb (the interconnect may take up to two cycles to hand over/register)
+        bad_reach = 0
+        for i, m in enumerate(ms):
+            others_idle = 1
+            for k2, m2 in enumerate(ms):
+                if k2 != i:
+                    others_idle = others_idle & ~m2.cyc
+            mapped = any_([match(j, m.adr) for j in range(S)])
+            cnt = self.reg(2, "alone_m%d" % i)
+            alone = m.cyc & m.stb & ~self.term[i] & others_idle & mapped
+            self.sync += If(alone, If(cnt != 3, cnt.eq(cnt + 1))).Else(cnt.eq(0))
+            seen = any_([match(j, m.adr) & s.cyc & s.stb for j, s in enumerate(ss)])
+            bad_reach = bad_reach | (alone & (cnt == 3) & ~seen)
         self.bads = {}
+        sig = Signal(name_override="bad_mapped_request_reaches_its_slave")
+        self.comb += sig.eq(bad_reach)
+        self.bads["mapped_request_reaches_its_slave"] = sig
         for nme, e in (("slave_sees_master_request", bad_present), ("slave_cyc_in_window", bad_window), ("termination_to_issuer", bad_term),
                        ("read_data_from_selected_slave", bad_data), ("answer_delivered_once", bad_lost)):
             sig = Signal(name_override="bad_" + nme)
@@ -219,7 +242,7 @@ def jobs(tier):
         K = 12
         for (kind, m, s, mapname, reg, dw) in [("shared", 2, 2, "adjacent", False, 8), ("shared", 3, 3, "hole", False, 8), ("shared", 2, 3, "gapped", True, 8),
                                                ("crossbar", 2, 2, "hole", False, 8), ("crossbar", 3, 2, "gapped", False, 8), ("crossbar", 2, 3, "adjacent", True, 8),
-                                               ("shared", 2, 2, "gapped", False, 32), ("shared", 1, 3, "hole", False, 8)]:
+                                               ("shared", 2, 2, "gapped", False, 32), ("shared", 1, 3, "hole", False, 8), ("shared", 2, 3, "nonpow2", False, 8)]:
             js.append(Job("wb_%s_%dx%d_%s%s_d%d" % (kind, m, s, mapname, "_reg" if reg else "", dw), build,
                           dict(kind=kind, M=m, S=s, mapname=mapname, register=reg, K=K, dw=dw), cost=m * s))
     js.append(Job("wb_shared_2x2_adjacent_d8_timeout4_fastslaves", build, dict(kind="shared", M=2, S=2, mapname="adjacent", register=False, K=K, timeout=4), cost=4))
